@@ -527,6 +527,55 @@ Definition url_is_unquoted (rest : list N) : bool :=
 Definition opt_list {A} (o : option A) : list A := match o with Some a => [a] | None => [] end.
 
 (* rest is non-empty (tk.pos < L); p = tokenPos *)
+(* the identifier / function / url( part of the iteration, :711-738; rest starts an identifier *)
+Definition lex_ident_like (fx : bool) (fuel : nat) (p : pos) (rest : list N) : res lexed :=
+  let* (value, r1) := consume_ident fuel rest in
+  match r1 with
+  | c1 :: r2 =>
+      if c1 =? 40 then                                              (* :716 skip the left paren *)
+        if str_eqb (ascii_lower value) s_url && url_is_unquoted r2 then   (* :717-722 *)
+          let* (v, e, r3) := consume_url fx fuel p r2 in
+          Ok (LTok (opt_list v ++ opt_list e) r3)
+        else Ok (LOpen (OFunction value) r2)
+      else Ok (LTok [TIdent p value] r1)                             (* :712 *)
+  | [] => Ok (LTok [TIdent p value] r1)
+  end.
+
+(* the second switch, :746-812; rest = c :: r *)
+Definition lex1_punct (fx skip : bool) (fuel : nat) (endc : N) (p : pos) (c : N) (r : list N) : res lexed :=
+  let rest := c :: r in
+  if c =? 64 then                                                     (* :747 '@' *)
+    let* ids := match r with [] => Ok false | _ => is_ident_start fx r end in
+    if ids then
+      let* (v, r') := consume_ident fuel r in Ok (LTok [TAtKeyword p v] r')
+    else Ok (LTok [TLiteral p [64]] r)
+  else if c =? 35 then                                                (* :755 '#' *)
+    let* h := try_consume_hash fx fuel p r in
+    match h with
+    | Some (t, r') => Ok (LTok [t] r')
+    | None => Ok (LTok [TLiteral p [35]] r)
+    end
+  else if c =? 123 then Ok (LOpen OCurly r)                            (* :762 *)
+  else if c =? 91 then Ok (LOpen OSquare r)                            (* :767 *)
+  else if c =? 40 then Ok (LOpen OParens r)                            (* :772 *)
+  else if c =? 0 then Ok LStuck                                        (* :777 *)
+  else if c =? endc then Ok (LClose r)                                 (* :778 *)
+  else if (c =? 125) || (c =? 93) || (c =? 41) then                    (* :782 *)
+    Ok (LTok [TParseError p c] r)
+  else if (c =? 39) || (c =? 34) then                                  (* :786 *)
+    let* (v, add, e, r') := consume_quoted_string fuel rest in
+    Ok (LTok ((if add then [TString p v (negb (e =? 0))] else [])
+              ++ (if negb (e =? 0) then [TParseError p e] else [])) r')
+  else if has_prefix [47; 42] rest then                                (* :795 comment *)
+    match find_comment_end (tl r) with
+    | None =>                                                         (* :798 index == -1 *)
+        (* tk.pos += 2 + (-1); [FIX 2]: tk.pos = L *)
+        Ok (LReturn (if skip then [] else [TComment p (tl r)]) (if fx then [] else r))
+    | Some (txt, r') => Ok (LTok (if skip then [] else [TComment p txt]) r')
+    end
+  else
+    let* (t, r') := consume_delim p rest in Ok (LTok [t] r').          (* :809 *)
+
 Definition lex1 (fx skip : bool) (fuel : nat) (endc : N) (p : pos) (rest : list N) : res lexed :=
   match rest with
   | [] => Ok (LTok [] [])
@@ -540,54 +589,12 @@ Definition lex1 (fx skip : bool) (fuel : nat) (endc : N) (p : pos) (rest : list 
       if has_prefix s_cdc rest then Ok (LTok [TLiteral p s_cdc] (skipn 3 rest))     (* :706 *)
       else
       let* ids := is_ident_start fx rest in                                (* :710 *)
-      if ids then
-        let* (value, r1) := consume_ident fuel rest in
-        match r1 with
-        | c1 :: r2 =>
-            if c1 =? 40 then                                              (* :716 skip the left paren *)
-              if str_eqb (ascii_lower value) s_url && url_is_unquoted r2 then   (* :717-722 *)
-                let* (v, e, r3) := consume_url fx fuel p r2 in
-                Ok (LTok (opt_list v ++ opt_list e) r3)
-              else Ok (LOpen (OFunction value) r2)
-            else Ok (LTok [TIdent p value] r1)                             (* :712 *)
-        | [] => Ok (LTok [TIdent p value] r1)
-        end
+      if ids then lex_ident_like fx fuel p rest
       else
       let* num := try_consume_number fx fuel p rest in                     (* :741 *)
       match num with
       | Some (t, r') => Ok (LTok [t] r')
-      | None =>
-      if c =? 64 then                                                     (* :747 '@' *)
-        let* ids := match r with [] => Ok false | _ => is_ident_start fx r end in
-        if ids then
-          let* (v, r') := consume_ident fuel r in Ok (LTok [TAtKeyword p v] r')
-        else Ok (LTok [TLiteral p [64]] r)
-      else if c =? 35 then                                                (* :755 '#' *)
-        let* h := try_consume_hash fx fuel p r in
-        match h with
-        | Some (t, r') => Ok (LTok [t] r')
-        | None => Ok (LTok [TLiteral p [35]] r)
-        end
-      else if c =? 123 then Ok (LOpen OCurly r)                            (* :762 *)
-      else if c =? 91 then Ok (LOpen OSquare r)                            (* :767 *)
-      else if c =? 40 then Ok (LOpen OParens r)                            (* :772 *)
-      else if c =? 0 then Ok LStuck                                        (* :777 *)
-      else if c =? endc then Ok (LClose r)                                 (* :778 *)
-      else if (c =? 125) || (c =? 93) || (c =? 41) then                    (* :782 *)
-        Ok (LTok [TParseError p c] r)
-      else if (c =? 39) || (c =? 34) then                                  (* :786 *)
-        let* (v, add, e, r') := consume_quoted_string fuel rest in
-        Ok (LTok ((if add then [TString p v (negb (e =? 0))] else [])
-                  ++ (if negb (e =? 0) then [TParseError p e] else [])) r')
-      else if has_prefix [47; 42] rest then                                (* :795 comment *)
-        match find_comment_end (tl r) with
-        | None =>                                                         (* :798 index == -1 *)
-            (* tk.pos += 2 + (-1); [FIX 2]: tk.pos = L *)
-            Ok (LReturn (if skip then [] else [TComment p (tl r)]) (if fx then [] else r))
-        | Some (txt, r') => Ok (LTok (if skip then [] else [TComment p txt]) r')
-        end
-      else
-        let* (t, r') := consume_delim p rest in Ok (LTok [t] r')          (* :809 *)
+      | None => lex1_punct fx skip fuel endc p c r
       end
       end
   end.
